@@ -414,7 +414,7 @@ class tokenizer(object):
 
         def handleshellexp():
             peek_char = self._getc()
-            if peek_char == '(' or (c == '$' and peek_char in '{['):
+            if peek_char == '(' or (c == '$' and peek_char is not None and peek_char in '{['):
                 # try:
                 if peek_char == '{':
                     ttok = self._parse_matched_pair(cd, '{', '}', firstclose=True, dolbrace=True)
@@ -434,7 +434,7 @@ class tokenizer(object):
                 d['all_digit_token'] = False
 
                 # goto next_character
-            elif c == '$' and peek_char in '\'"':
+            elif c == '$' and peek_char is not None and peek_char in '\'"':
                 self._push_delimiter(peek_char)
                 try:
                     ttok = self._parse_matched_pair(peek_char, peek_char, peek_char,
@@ -539,7 +539,7 @@ class tokenizer(object):
 
         tokenword = ''.join(tokenword)
 
-        if d['all_digit_token'] and (c in '<>' or self._last_read_token.ttype in (tokentype.LESS_AND, tokentype.GREATER_AND)) and shutils.legal_number(tokenword):
+        if d['all_digit_token'] and ((c is not None and c in '<>') or self._last_read_token.ttype in (tokentype.LESS_AND, tokentype.GREATER_AND)) and shutils.legal_number(tokenword):
             return self._createtoken(tokentype.NUMBER, int(tokenword))
 
         # bashlex/parse.y L4811
@@ -589,7 +589,7 @@ class tokenizer(object):
         if self._command_token_position(self._last_read_token):
             pass
 
-        if tokenword.value[0] == '{' and tokenword.value[-1] == '}' and c in '<>':
+        if tokenword.value[0] == '{' and tokenword.value[-1] == '}' and c is not None and c in '<>':
             if shutils.legal_identifier(tokenword.value[1:]):
                 # XXX is this needed?
                 tokenword.value = tokenword.value[1:]
